@@ -4,7 +4,7 @@
 cd /verif; mkdir -p /tmp/seedrun-verif; cp known_findings.json /tmp/seedrun-verif/
 PROPS=$(python3 -c "import json;print(' '.join(c['property_id'] for c in json.load(open('MANIFEST.json'))['checks']))")
 for D in "$@"; do
- for P in $D/r*.diff; do
+ for P in $(realpath $D)/r*.diff; do
   git -C /repo diff --quiet || { echo "/repo dirty"; exit 2; }
   git -C /repo apply $P 2>/dev/null || { echo "$P: does not apply"; continue; }
   AL=""; ST=""
